@@ -180,6 +180,31 @@ R.contract(
     max_paths=40000,
 )
 
+# ------------------------------------------------------------------------------------------------- _measure_statistic: the 'selected / total' counts are the documented operations
+rpi = R.contracts[OAS + "BaseOpenAPISchema._resolve_path_item"]
+rpi.effects = {"unresolved": "ghost('unresolved') + ([methods] if raised is not None else [])"}
+for _m in ("push_scope", "pop_scope"):
+    R.contract("schemathesis.specs.openapi.references:InliningResolver." + _m, args={"self": Opq("Resolver")}, returns=NoneT, trusted=True, note="E3: resolution scope stack")
+RESOLVABLE = "[p for p in all_paths(self) if not any(u is all_paths(self)[p] for u in ghost('unresolved'))]"
+DOC_OK = "[(p, m) for p in " + RESOLVABLE + " for m in all_paths(self)[p] if m in ('get', 'put', 'post', 'delete', 'options', 'head', 'patch', 'trace')]"
+R.contract(
+    OAS + "BaseOpenAPISchema._measure_statistic",
+    prop="C08",
+    args={"self": Obj(OAS + "BaseOpenAPISchema", raw_schema=DictOf(optional={"paths": DictOf(optional={"/a": PI, "/b": PI1})}), resolver=Opq("Resolver"), links_field=Const("links"))},
+    ghost={"skipped": [], "unresolved": []},
+    raises=[],
+    ensures={
+        # the reported counts are exactly the operations of the document (HTTP-method keys of resolvable path items) and those of them that pass the filters -
+        # the same set get_all_operations offers (contract above)
+        "total_is_the_number_of_documented_operations": "result.operations.total == (length(" + DOC_OK + ") if 'paths' in self.raw_schema else 0)",
+        "selected_is_total_minus_deselected": "result.operations.selected == result.operations.total - length(ghost('skipped'))",
+        "deselected_are_documented_operations": "all(pm in " + DOC_OK + " for pm in ghost('skipped'))",
+    },
+    bounded_note="documents with up to 2 paths x {get, post} (+ parameters / extension key)",
+    replayable=False,
+    max_paths=40000,
+)
+
 # ------------------------------------------------------------------------------------------------- security parameters: every active scheme that does not clash is added
 SEC = "schemathesis.specs.openapi.security:"
 SecDef = OneOf(DictOf(required={"type": Const("apiKey"), "name": Str, "in": Choice("header", "query")}), DictOf(required={"type": Const("http"), "scheme": Const("basic")}))
